@@ -21,7 +21,7 @@ from vlib.shape import Shape, Space, Ix, Q, D, BoolT, StrT, NoneT, SizeOf, UNK, 
 from vlib.viewmap import View, Op, Cat, L, K
 from obligations.shape_tables import (COMMON_SIGS, CCG, AR, Spike, SEC, RATE, Clu, CNT)
 
-FLOOR = 22
+FLOOR = 17
 EXPLANATION = ('shape engine over correlograms() / firing_rate() (dimensions of times, samples, bins; index spaces of the relabelled clusters '
                'and of the three components of the flat index); structural role rules for earlier/later spike and the edge test; a symbolic '
                'index-map domain (views as affine maps of indices, concatenations, elementwise max) interprets _symmetrize_correlograms and its '
